@@ -109,7 +109,12 @@ type Finding struct {
 	Commit   string `json:"commit,omitempty"`
 }
 
-const verifDir = "/verif"
+var verifDir = func() string {
+	if d := os.Getenv("VERIF_DIR"); d != "" {
+		return d
+	}
+	return "/verif"
+}()
 
 // outDir is where evidence and replay files go (redirected for mutant runs).
 func outDir() string {
